@@ -1,0 +1,81 @@
+//go:build verif
+
+package fontscan
+
+import (
+	"github.com/go-text/typesetting/font"
+	ot "github.com/go-text/typesetting/font/opentype"
+	"github.com/go-text/typesetting/language"
+)
+
+// Verification hooks (property C11): the rune set container and the coverage builders.
+
+// VerifPage mirrors runePage.
+type VerifPage struct {
+	Ref uint16
+	Set [8]uint32
+}
+
+// VerifPages returns the internal pages of the set.
+func VerifPages(rs RuneSet) []VerifPage {
+	out := make([]VerifPage, len(rs))
+	for i, p := range rs {
+		out[i] = VerifPage{Ref: p.ref, Set: p.set}
+	}
+	return out
+}
+
+// VerifFromPages builds a set with exactly these pages.
+func VerifFromPages(pages []VerifPage) RuneSet {
+	out := make(RuneSet, len(pages))
+	for i, p := range pages {
+		out[i] = runePage{ref: p.Ref, set: p.Set}
+	}
+	return out
+}
+
+func VerifIncludes(a, b RuneSet) bool                       { return a.includes(b) }
+func VerifFindPageFrom(rs RuneSet, low int, ref uint16) int { return rs.findPageFrom(low, ref) }
+func VerifSerialize(rs RuneSet) []byte                      { return rs.serialize() }
+func VerifDeserialize(data []byte) (RuneSet, int, error) {
+	var rs RuneSet
+	n, err := rs.deserializeFrom(data)
+	return rs, n, err
+}
+
+// VerifAddRangeToPage applies addRangeToPage to a copy of [page].
+func VerifAddRangeToPage(page [8]uint32, start, end byte) [8]uint32 {
+	p := pageSet(page)
+	addRangeToPage(&p, start, end)
+	return p
+}
+
+// VerifCoverages is newCoveragesFromCmap.
+func VerifCoverages(cmap font.Cmap) (RuneSet, []language.Script) {
+	rs, ss, _ := newCoveragesFromCmap(cmap, nil)
+	return rs, ss
+}
+
+type verifRanger [][2]rune
+
+func (r verifRanger) RuneRanges(dst [][2]rune) [][2]rune { return append(dst[:0], r...) }
+
+// VerifCoveragesFromRanges is newCoveragesFromCmapRange on a ranger yielding exactly [ranges].
+func VerifCoveragesFromRanges(ranges [][2]rune) (RuneSet, []language.Script) {
+	rs, ss, _ := newCoveragesFromCmapRange(verifRanger(ranges), nil)
+	return rs, ss
+}
+
+// VerifScriptsFromRanges is scriptsFromRanges.
+func VerifScriptsFromRanges(ranges [][2]rune) []language.Script { return scriptsFromRanges(ranges) }
+
+// VerifFootprintFromFont is newFootprintFromFont.
+func VerifFootprintFromFont(f *font.Font) Footprint {
+	return newFootprintFromFont(f, Location{}, font.Description{})
+}
+
+// VerifFootprintFromLoader is newFootprintFromLoader (the path used when scanning font files).
+func VerifFootprintFromLoader(ld *ot.Loader) (Footprint, error) {
+	fp, _, err := newFootprintFromLoader(ld, false, scanBuffer{})
+	return fp, err
+}
